@@ -3,7 +3,7 @@
 EXTRA_BUILDS = {}
 
 HOOK_COMMITS = ["7bc0d60"]
-FIX_COMMITS = ["243874c", "428186b", "52f0108", "243864d", "8c765f6", "203eb57", "7f74090", "7540dfb"]
+FIX_COMMITS = ["243874c", "428186b", "52f0108", "243864d", "8c765f6", "203eb57", "7f74090", "7540dfb", "68d683c", "7270b67"]
 
 NOT_APPLICABLE = {}
 
@@ -257,5 +257,33 @@ CHECKS = {
                       "decided by the real strict recovery against the pre-damage model; fault enumeration over sampled directories, not proof",
         "level_note": "multi-fault damage and faults at non-enumerated offsets are out of reach; server start-up policy (MANIFEST deleted) is judged in the server leg",
         "technique": "runtime monitoring: single-fault injection on persisted state + recovery oracle",
+    },
+    "C12": {
+        "level": "fault_enumeration",
+        "rule": "three legs. histories: seeded history (writes, snapshots every 2-7 mutations or manual, rotation at 96-256 B, compaction, "
+                "clean restarts) with 2-5 backups (full, then mostly incrementals on the newest backup) at quiescent points; EVERY backup is "
+                "restored with RestoreManager into an empty directory, strictly recovered and compared bit-exactly with the model at backup "
+                "time; point-in-time restores (thorough: at every backup timestamp with 1.1 s spacing; quick: 'now'). corruption: for one "
+                "backup per case, every file of its chain (archives and metadata JSON): bit flips at every structural offset (member count, "
+                "every name-length / name / data-length byte, first/middle/last payload byte of every member, every (3rd) metadata byte), "
+                "truncation to every member boundary -1/0/+1, to 0, last byte, seeded offsets; restored with allow_clear into a NON-EMPTY target "
+                "holding another database: outcome must be 'rejected with the target byte-identical' or 'accepted with exactly the backup-time "
+                "collection'; restore without confirmation must leave a non-empty target untouched. retention: synthetic timelines (1-5 fulls "
+                "with chains and branches of incrementals, ages from minutes to years) x seeded policies: after prune_backups every retained "
+                "backup still has all its ancestors. distinct_nontrivial = distinct histories with >= 2 backups, distinct (case, file, mutation) "
+                "corruptions, distinct timelines where something was pruned and something retained",
+        "legs": [
+            {"name": "histories", "argv": ["c12"], "args": {"leg": "histories"}, "shards": 16},
+            {"name": "corruption", "argv": ["c12"], "args": {"leg": "corruption"}, "shards": 16},
+            {"name": "retention", "argv": ["c12"], "args": {"leg": "retention"}, "shards": 16},
+        ],
+        "assumptions": COMMON_ASSUME + ["BACKUP_ALLOW_CLEAR is unset; confirmation goes through ClearDirectoryOptions", "backups are taken on a quiescent engine (the property's own condition)",
+                                         "a corruption that provably changes nothing (e.g. description text) may be accepted"],
+        "min_evaluations": 500,
+        "level_text": "restore-and-recover differential of every backup of seeded histories against the backup-time model, plus enumeration of "
+                      "single-byte corruptions/truncations of archives and metadata and synthetic retention timelines, all on the real "
+                      "BackupManager/RestoreManager; fault enumeration over sampled backup sets, not proof",
+        "level_note": "S3 transport is not driven; PITR between timestamps needs wall-clock spacing and is thorough-only",
+        "technique": "runtime monitoring: restore differential + single-fault injection on backup artefacts + closure invariant on retention",
     },
 }
